@@ -74,6 +74,7 @@ def leftrec_grammar(rng, idx):
     """left-recursive shapes: direct struct style, calculator (enum-override) style, two nested
     left-recursive rules, base alternative first/last, memoized atoms, positions"""
     r = rng
+    leftrec_grammar.rec_first = True
     ops1 = r.sample(['+', '-', '|'], 2)
     ops2 = r.sample(['*', '/', '&'], 2)
     atom_kind = r.choice(['num', 'ident', 'paren'])
@@ -89,9 +90,12 @@ def leftrec_grammar(rng, idx):
         rec = gen.seq(('field', 'left', True, 'E'), gen.lit(ops1[0]), ('field', 'right', False, 'Num'))
         rec2 = gen.seq(('field', 'left', True, 'E'), gen.lit(ops1[1]), ('field', 'right', False, 'Num'))
         base = gen.seq(('field', 'base', False, 'Num'))
-        alts = [rec, rec2, base] if r.random() < 0.6 else [base, rec, rec2]
+        rec_first = r.random() < 0.6
+        alts = [rec, rec2, base] if rec_first else [base, rec, rec2]
         if r.random() < 0.3:
             alts = [rec, base]
+            rec_first = True
+        leftrec_grammar.rec_first = rec_first
         rules.append(dict(kind='rule', dirs=['export', 'leftrec'] + pos + noskip, name='E', body=('choice', alts)))
         rules.append(num)
     elif style == 'calc':
@@ -263,7 +267,7 @@ def build_cases(seed, tier):
         for ex in gen.exported_rules(rules):
             for s in leftrec_inputs(rng, rules, ni):
                 ins.append((ex, s))
-        add('lr%d' % i, rules, False, ins, ['leftrec'])
+        add('lr%d' % i, rules, False, ins, ['leftrec'] + (['recfirst'] if leftrec_grammar.rec_first else []))
     # include twins
     n, ni = size('incl')
     i = 0
